@@ -117,6 +117,21 @@ def gen(rng, knobs):
         if tail and rng.random() < 0.5:
             h.ops.append(tail.pop(0))
     h.ops.extend(tail)
+    for _ in range(rng.choice([0, 0, 1, 2])):
+        # REQs of different connections running at the same time, same shape, different values: each answer
+        # belongs to its own filters
+        base = histgen.wellformed_filter(rng, evs, shape=rng.choice(["tags", "tags+kinds", "tags2", "tags+time", "authors+kinds"]))
+        batch = []
+        for _ in range(rng.choice([2, 2, 3])):
+            g = copy.deepcopy(base)
+            for k in list(g):
+                if k.startswith("#"):
+                    cands = [t[1] for e in evs for t in e["tags"] if len(t) >= 2 and t[0] == k[1:] and isinstance(t[1], str)]
+                    g[k] = [rng.choice(cands)] if cands and rng.random() < 0.8 else [rng.choice(histgen.TAG_VALS[:8])]
+                elif k == "authors" and evs:
+                    g[k] = [rng.choice(evs)["pubkey"]]
+            batch.append([g])
+        h.ops.append(["csubs", batch])
     return {"backend": backend, "ops": h.ops, "settle": not inflight}
 
 
@@ -303,7 +318,14 @@ def run(case, sim):
 
     shapes = []
     nontrivial = False
+    flat = []
     for o in obs:
+        if o["op"][0] == "csubs" and o.get("res", [None])[0] == "ok":
+            for fs, r in zip(o["op"][1], o["res"][1]):
+                flat.append(dict(o, op=["sub", fs], res=r))
+        else:
+            flat.append(o)
+    for o in flat:
         kind = o["op"][0]
         if kind not in ("sub", "query"):
             continue
